@@ -308,6 +308,7 @@ CHECKS["C20"] = {
     "units": [
         {"pkg": "root", "run": "TestVF_C20_Credential", "race": True, "shards": {"quick": 4, "thorough": 8}, "timeout": {"quick": 900, "thorough": 3400}},
         {"pkg": "internal__common", "run": "TestVF_C20_Keystream", "race": True, "shards": {"quick": 2, "thorough": 4}, "timeout": {"quick": 600, "thorough": 3400}},
+        {"pkg": "internal__common", "run": "TestVF_C20_KeystreamLongRun", "race": True, "timeout": {"quick": 600, "thorough": 3400}},
         {"pkg": "gabikeys", "run": "TestVF_C20_KeyGen", "race": True, "shards": {"quick": 1, "thorough": 4}, "timeout": {"quick": 900, "thorough": 3400}},
         {"pkg": "keyproof", "run": "TestVF_C20_KeyProofParallel", "race": True, "rapid": {"quick": 30, "thorough": 60}, "timeout": {"quick": 900, "thorough": 3400}},
     ],
